@@ -58,6 +58,9 @@ def _hkey(x):
 		return None if any(k is None for k in ks) else ("seq", len(x), tuple(ks))
 	if isinstance(x, Vector):
 		return None
+	if isinstance(x, dict):
+		ks = [(_hkey(k), _hkey(v)) for k, v in x.items()]
+		return None if any(a is None or b is None for a, b in ks) else ("dict", tuple(sorted(map(repr, ks))))
 	try:
 		return ("h", hash(x) % P)
 	except Exception:
@@ -318,6 +321,10 @@ def run_readonly(chk, spec):
 	rng = random.Random(spec["seed"])
 	kind = spec["kind"]
 	vals = [rng.choice(DOM[kind]) for _ in range(spec["n"])]
+	if spec.get("with_none") and len(vals) > 1 and kind in ("int", "float", "str", "date", "bool"):
+		vals[rng.randrange(len(vals))] = None
+		if all(e is None for e in vals):
+			vals[0] = DOM[kind][0]
 	v = Vector(list(vals), name="v")
 	t = Table([Vector(list(vals), name="a"), Vector(list(vals), name="b")])
 	for x, label in ((v, "vector"), (t, "table")):
@@ -325,7 +332,8 @@ def run_readonly(chk, spec):
 		ops = [lambda: repr(x), lambda: dir(x), lambda: [r for r in x], lambda: x + x, lambda: x == x, lambda: x[0], lambda: x[0:1], lambda: x.copy(),
 			lambda: len(x), lambda: x.T, lambda: x.fingerprint()]
 		if label == "vector":
-			ops += [lambda: x.sort_by(), lambda: x.isna(), lambda: x.sum(), lambda: x * 2, lambda: x.fillna(dom0(kind)), lambda: x.unique()]
+			ops += [lambda: x.sort_by(), lambda: x.isna(), lambda: x.sum(), lambda: x * 2, lambda: x.fillna(dom0(kind)), lambda: x.unique(),
+				lambda: x.fillna(pool.wider(next((e for e in vals if e is not None), 1))), lambda: x.cast(str), lambda: x.to_object(), lambda: x << [pool.wider(next((e for e in vals if e is not None), 1))], lambda: x.dropna(), lambda: x == x.copy()]
 		else:
 			ops += [lambda: x.sort_by("a"), lambda: x.join(x, "a", "a", expect="many_to_many"), lambda: x.aggregate(over="a", count_over="b"), lambda: x["a", "b"], lambda: x.a, lambda: x >> {"n": list(vals)}]
 		for k, f in enumerate(ops):
@@ -333,6 +341,8 @@ def run_readonly(chk, spec):
 			chk.judged("read-only", ("ro", label, k))
 			if fp(x).value != f0:
 				chk.fail("read-only operations never change the fingerprint", f"fingerprint/changed-by-read-only/{label}/op{k}", f"{spec!r}: operation #{k} changed the fingerprint of the {label}")
+				return
+			if not judge_fresh(chk, x, f"after-read-only/{label}/op{k}", spec):      # (and it is still the fingerprint of what the object holds)
 				return
 
 
@@ -403,13 +413,26 @@ def run_nested(chk, spec):
 	inner = [[rng.choice([1, 2, 3, 5]) for _ in range(k)] for k in spec["lens"]]
 	with warnings.catch_warnings():
 		warnings.simplefilter("ignore")
-		o = call(lambda: Vector([Vector(list(x)) for x in inner]))
-	if not o.ok or isinstance(o.value, Table) or not all(isinstance(e, Vector) for e in o.value._underlying):
+		if spec.get("becomes_nested"):
+			# an object vector that holds only scalars when it is first fingerprinted and receives its element vectors afterwards
+			def build():
+				ov = Vector(["s", 1] + [None] * len(inner))
+				ov.fingerprint()
+				for k, x in enumerate(inner):
+					ov[2 + k] = Vector(list(x))
+					ov.fingerprint()
+				return ov[2:] if spec["becomes_nested"] == "slice" else ov
+			o = call(build)
+			if o.ok and spec["becomes_nested"] != "slice":
+				inner = [None, None] + inner
+		else:
+			o = call(lambda: Vector([Vector(list(x)) for x in inner]))
+	if not o.ok or isinstance(o.value, Table) or not any(isinstance(e, Vector) for e in o.value._underlying):
 		chk.skip("nested-not-a-vector-of-vectors")
 		return
 	outer = o.value
 	f0 = fp(outer).value if spec["cached"] else None
-	i = rng.randrange(len(inner))
+	i = rng.choice([k for k, e in enumerate(outer._underlying) if isinstance(e, Vector)])
 	j = rng.randrange(len(inner[i]))
 	old = inner[i][j]
 	new = old + 10
@@ -465,6 +488,7 @@ def run(chk):
 		for how in ("through-outer", "held-inner", "inner-slice"):
 			for cached in (True, False):
 				chk.case("nested", {"lens": lens, "how": how, "cached": cached, "seed": rng.randrange(10**9)}, "nested")
+				chk.case("nested", {"lens": lens, "how": how, "cached": cached, "becomes_nested": "whole", "seed": rng.randrange(10**9)}, "nested-later")
 	for kind in DOM:
 		for deriv in DERIVS:
 			for cached in (True, False):
@@ -477,5 +501,6 @@ def run(chk):
 			chk.case("swap", {"values": vals, "i": i, "j": j, "kind": kind, "via": rng.choice(["write", "rebuild"]), "seed": 0}, "swap")
 		for _ in range(3 if chk.quick() else 10):
 			chk.case("readonly", {"kind": kind, "n": rng.choice([1, 3, 4]), "seed": rng.randrange(10**9)}, "read-only")
+			chk.case("readonly", {"kind": kind, "n": rng.choice([2, 3, 4]), "with_none": True, "seed": rng.randrange(10**9)}, "read-only")
 	for i in range(120 if chk.quick() else 400):
 		chk.case("history", {"seed": rng.randrange(10**9), "nsteps": rng.choice([15, 30]) if chk.quick() else rng.choice([15, 30, 60]), "profile": rng.choice(["mixed", "tables"])}, "history")
